@@ -7,11 +7,11 @@ package jlib
 import (
 	"fmt"
 	"math"
+	"math/big"
 	"math/rand"
 	"reflect"
 	"regexp"
 	"strconv"
-	"strings"
 
 	"github.com/blues/jsonata-go/jtypes"
 )
@@ -62,31 +62,45 @@ func Round(x float64, prec jtypes.OptionalInt) float64 {
 	if prec.Int >= 0 && x == math.Trunc(x) {
 		return x
 	}
-	intermed := multByPow10(x, prec.Int)
-	if math.IsInf(intermed, 0) {
+	// The digits that are rounded away are those of the shortest
+	// decimal form of x, i.e. the number as it is printed. Scaling
+	// x by a power of ten in binary floating point does not keep
+	// them (1.4999999999999999e-5 * 1e5 is 1.5), so the rounding
+	// is done in exact arithmetic.
+	if prec.Int > 400 {
 		return x
 	}
-	if isHalfway(intermed) {
-		correction, _ := math.Modf(math.Mod(intermed, 2))
-		intermed += correction
-		if intermed > 0 {
-			x = math.Floor(intermed)
-		} else {
-			x = math.Ceil(intermed)
-		}
-	} else {
-		if x < 0 {
-			x = math.Ceil(intermed - 0.5)
-		} else {
-			x = math.Floor(intermed + 0.5)
+	if prec.Int < -400 {
+		return 0
+	}
+	r, ok := new(big.Rat).SetString(strconv.FormatFloat(x, 'e', -1, 64))
+	if !ok {
+		return x
+	}
+	scale := new(big.Rat).SetInt(new(big.Int).Exp(big.NewInt(10), big.NewInt(int64(abs(prec.Int))), nil))
+	if prec.Int < 0 {
+		scale.Inv(scale)
+	}
+	r.Mul(r, scale)
+
+	// Round half to even: q is the floor of r and rem/denom
+	// its distance from r.
+	q, rem := new(big.Int).DivMod(r.Num(), r.Denom(), new(big.Int))
+	switch rem.Lsh(rem, 1).Cmp(r.Denom()) {
+	case 1:
+		q.Add(q, big.NewInt(1))
+	case 0:
+		if q.Bit(0) == 1 {
+			q.Add(q, big.NewInt(1))
 		}
 	}
 
+	x, _ = r.SetInt(q).Quo(r, scale).Float64()
 	if x == 0 {
 		return 0
 	}
 
-	return multByPow10(x, -prec.Int)
+	return x
 }
 
 // Power returns x to the power of y.
@@ -110,37 +124,4 @@ func Sqrt(x float64) (float64, error) {
 // Random returns a random floating point number between 0 and 1.
 func Random() float64 {
 	return rand.Float64()
-}
-
-// multByPow10 multiplies a number by 10 to the power of n.
-// It does this by converting back and forth to strings to
-// avoid floating point rounding errors, e.g.
-//
-//     4.525 * math.Pow10(2) returns 452.50000000000006
-func multByPow10(x float64, n int) float64 {
-	if n == 0 || math.IsNaN(x) || math.IsInf(x, 0) {
-		return x
-	}
-
-	s := fmt.Sprintf("%g", x)
-
-	chunks := strings.Split(s, "e")
-	switch len(chunks) {
-	case 1:
-		s = chunks[0] + "e" + strconv.Itoa(n)
-	case 2:
-		e, _ := strconv.Atoi(chunks[1])
-		s = chunks[0] + "e" + strconv.Itoa(e+n)
-	default:
-		return x
-	}
-
-	x, _ = strconv.ParseFloat(s, 64)
-	return x
-}
-
-func isHalfway(x float64) bool {
-	_, frac := math.Modf(x)
-	frac = math.Abs(frac)
-	return frac == 0.5 || (math.Nextafter(frac, math.Inf(-1)) < 0.5 && math.Nextafter(frac, math.Inf(1)) > 0.5)
 }
